@@ -2,12 +2,87 @@
 
 Execution-graph correspondence (real ExecutionGraph driven by the scripted
 scheduler vs Model/Exec.lean, state compared after every operation) and the
-C04 monitor of harness/execsim.py evaluated on the real traces."""
+C04 monitor of harness/execsim.py evaluated on the real traces; the adapter side of
+"which job is live": the real Slurm / LSF `submit` on scripted `sbatch` / `bsub`
+answers (documented success lines, multi-cluster lines, warnings before them, failures)
+compared with Model/Sched.lean `submitResult` - the job the scheduler accepted must be the
+job Maestro tracks, and an accepted job is never reported as a failed submission."""
+import os
+
 import execprop
+import fakeenv
+from corr import Case, compare, judge, account
 
 LEVEL = "proof"
-RULE = execprop.RULE
+RULE = (execprop.RULE + "; plus submit() of the Slurm / LSF adapters on generated sbatch / bsub outputs "
+        "(documented shapes and a malformed stream) x exit codes")
+
+
+def hx(s):
+    return "_".join("%x" % ord(c) for c in s) or "-"
+
+
+class _Step:
+    name = "s"
+    real_name = "s"
+    run = {}
+
+
+def submit_cases(ctx, n):
+    import c16
+    rng = ctx.rng
+    ad = c16.adapters()
+    cases = []
+    for k in range(n):
+        which = ("slurm", "lsf")[k % 2]
+        jid = str(rng.choice([7, 42, 99999, 100000, 4100001, rng.randint(1, 10 ** 7)]))
+        documented = rng.random() < 0.8
+        if documented:
+            if which == "slurm":
+                line = rng.choice(["Submitted batch job %s", "Submitted batch job %s on cluster alpha",
+                                   "Submitted batch job %s on cluster c2"]) % jid
+            else:
+                line = rng.choice(["Job <%s> is submitted to queue <batch>.",
+                                   "Job <%s> is submitted to default queue <normal>."]) % jid
+            pre = rng.choice(["", "", "sbatch: lua: Submitted job\n", "warning: account defaults applied\n",
+                              "  "])
+            post = rng.choice(["\n", "", "\n\n", " \n"])
+            out = pre + line + post
+        else:
+            out = rng.choice(["", "\n", "no job here", "Submitted batch job", "error: Batch job submission failed",
+                              "Job <> is submitted"])
+        rc = rng.choice([0, 0, 0, 0, 1, 2, 127, 255]) if documented else rng.choice([0, 1, 255])
+        fakeenv.SUB.set(sbatch=(out, "", rc), bsub=(out, "", rc))
+        mon = []
+        try:
+            rec = ad[which].submit(_Step(), "/w/s.sh", "/w")
+            code = rec.submission_code.name
+            got = str(rec.job_identifier) if code == "OK" else "-"
+            res = "%s %s" % (code, hx(got) if code == "OK" else "-")
+        except AttributeError:
+            code, got, res = "RAISE", None, "RAISE:AttributeError"
+        cmd = fakeenv.SUB.calls[0] if fakeenv.SUB.calls else ""
+        if "/w/s.sh" not in cmd or "/w" not in cmd.replace("/w/s.sh", ""):
+            mon.append(("submit-command", "%s submit ran %r: script or working directory missing" % (which, cmd)))
+        if documented:
+            if rc == 0 and (code != "OK" or got != jid):
+                mon.append(("submitted-job-tracked", "%s accepted the job (exit 0, output %r) but submit() "
+                            "reported %s / job id %r - the live job %s is not the one Maestro tracks"
+                            % ({"slurm": "sbatch", "lsf": "bsub"}[which], out, code, got, jid)))
+            if rc != 0 and code == "OK":
+                mon.append(("submitted-job-tracked", "%s failed (exit %d) but submit() reported OK" % (which, rc)))
+        cases.append(Case({"kind": "submit", "adapter": which, "output": out, "rc": rc},
+                          ["sched.submit rc=%d out=%s" % (rc, hx(out))], [res], mon, documented,
+                          key="submit:%s:%s:%d" % (which, out, rc)))
+    return cases
 
 
 def run(ctx, escalated=False):
-    execprop.run(ctx, "C04", escalated)
+    quick = ctx.tier == "quick" and not escalated
+    cases = execprop.run(ctx, "C04", escalated, finish=False)
+    sub = submit_cases(ctx, 300 if quick else 5000)
+    ctx.count("submit-cases", len(sub))
+    cases = cases + sub
+    diffs = compare(cases)
+    account(ctx, sub)
+    judge(ctx, cases, diffs, "execution-graph+submit", shrink=execprop.shrink_factory(ctx, "C04"))
